@@ -172,7 +172,7 @@ pub fn observe<T: Label>(w: &Window<T>) -> Value {
 
 const FIELDS: [&str; 10] = ["newest", "oldest", "len", "empty", "get", "idx", "iter", "rev", "buf", "index"];
 
-fn compare_obs(out: &mut Out, ty: &str, via: &str, row: &Value, obs: &Value) {
+fn compare_obs(out: &mut Sink, ty: &str, via: &str, row: &Value, obs: &Value) {
 	for f in FIELDS {
 		// a rebuilt window may use another physical layout: its buffer/index are compared through the readings
 		if via != "direct" && (f == "buf" || f == "index") {
@@ -192,7 +192,7 @@ fn compare_obs(out: &mut Out, ty: &str, via: &str, row: &Value, obs: &Value) {
 	}
 }
 
-fn replay_type<T: Label>(rows: &[Value], out: &mut Out) {
+fn replay_type<T: Label>(rows: &[Value], out: &mut Sink) {
 	// rows are grouped by capacity and ordered by push count
 	let mut i = 0;
 	while i < rows.len() {
@@ -237,7 +237,7 @@ fn replay_type<T: Label>(rows: &[Value], out: &mut Out) {
 pub fn replay(args: &[String]) {
 	let mut rows = read_lines(&args[0]);
 	rows.sort_by_key(|r| (r["n"].as_u64().unwrap(), r["p"].as_u64().unwrap()));
-	let mut out = Out::new();
+	let mut out = Sink::new();
 	replay_type::<u32>(&rows, &mut out);
 	replay_type::<String>(&rows, &mut out);
 	replay_type::<(u8, u64)>(&rows, &mut out);
